@@ -87,6 +87,26 @@ class C02(RegConcCheck):
 class C03(RegConcCheck):
     pid = "C03"
     prop_module = "SigHook.Props.C03"
+
+    def correspond(self, tier, seed, rng):
+        res = super().correspond(tier, seed, rng)
+        # built-in action of the iterators (store into the slot + self-pipe wake), incl. a full pipe
+        from . import c09
+        class It(c09.IterCheck):
+            pid = "C03"
+            profile = "handler"
+        ires = It().correspond(tier, seed, rng)
+        res["failures"] += ires["failures"]
+        res["evaluations"] += ires["evaluations"]
+        res["distinct_nontrivial"] += ires["distinct_nontrivial"]
+        res["distribution"]["iterator_scenarios"] = ires["evaluations"]
+        res["distribution"]["iterator_wakes_on_full_pipe"] = ires["distribution"].get("= -1", 0)
+        res["rule"] += "; plus iterator scenarios (the instance's real action: slot store + self-pipe wake, half of them with the pipe filled to capacity) with the same per-step monitor and a would-block detector on every write/send"
+        uniq = {}
+        for f in res["failures"]:
+            uniq.setdefault(f["key"], f)
+        res["failures"] = list(uniq.values())
+        return res
     assumptions = C02.assumptions + [
         "heap use inside a delivery is observed by the harness's #[global_allocator] wrapper (library code only; harness code is excluded by a thread-local flag)",
         "user actions and a chained foreign handler are opaque steps assumed finite and async-signal-safe (the crate's own safety contract)",
